@@ -36,9 +36,6 @@ type Impl struct {
 	PublicKeySize, PrivateKeySize, SignatureSize int
 	PolyLeqEtaSize, PolyLeGamma1Size, PolyW1Size int
 	NIST, X4                                     bool
-	Decompose                                    func(a uint32) (a0plusQ, a1 uint32)
-	MakeHint                                     func(z0, r1 uint32) uint32
-	UseHint                                      func(rp, hint uint32) uint32
 	PolyDecompose                                func(p, p0PlusQ, p1 *P)
 	PolyMakeHint                                 func(p, p0, p1 *P) uint32
 	PolyUseHint                                  func(p, q, hint *P)
